@@ -235,7 +235,8 @@ public:
       buff[len] = '\0';
       PlatformSpecificHasher(std::string(buff)).readPathStringAndDigest(info.checksum);
     } else {
-      info.checksum = {0};
+      // Not a symbolic link: checksum the object itself.
+      info.checksum = impl->getFileChecksum(path);
     }
 #else
     info.checksum = impl->getFileChecksum(path);
